@@ -87,6 +87,11 @@ for _pid, _f, _key in (("C12", "notes/c12_proposals.json", "manifest_check"), ("
         CHECKS[_pid] = dict(text=_e["text"], note=_e["note"], design=_e.get("design", "7/" + _pid), technique=_e["technique"])
     except Exception as _ex:
         pass
+try:
+    _e = _json.load(open(os.path.join(V, "notes", "c14-manifest.json")))["C14"]
+    CHECKS["C14"] = dict(CHECKS["C14"], text=_e["text"], note=CHECKS["C14"]["note"] + " " + _e.get("note_addition", ""))
+except Exception as _ex:
+    pass
 PENDING = set()   # merged but temporarily not claimed (model being updated to the new LZF stream order)
 for _p in PENDING:
     CHECKS.pop(_p, None)
